@@ -107,11 +107,11 @@ class Function:
         return f'<fn {self.name}>'
 
 class Module:
-    def __init__(self, path, src, lib):
+    def __init__(self, path, src, lib, text=None):
         self.path, self.src, self.lib = path, src, lib
         self.functions, self.declares, self.globals, self.types, self.md = {}, {}, {}, {}, {}
         self._sf = {}
-        self._parse(open(path).read())
+        self._parse(text if text is not None else open(path).read())
 
     # ---- metadata
     def dbgline(self, ref):
@@ -583,7 +583,22 @@ class Program:
 def load_program(root='/repo', flavour='configured'):
     from . import build
     pairs = build.compile_all(root, flavour)
-    mods = [Module(p, c['unit'], c['lib']) for c, p in pairs]
+    texts = [open(p).read() for c, p in pairs]
+    # a static function that shares its name with an exported function of another unit (the adapters in
+    # src/backends/rs_vand and src/backends/null wrap same-named plug-in functions) gets a unit-local name, so that
+    # name-keyed summaries never confuse the two
+    defs = []
+    for t in texts:
+        d = {}
+        for mm in re.finditer(r'^define ([^@\n]*?)(@[\w.$]+)\(', t, re.M):
+            d[mm.group(2)] = 'internal' if re.search(r'\binternal\b', mm.group(1)) else 'external'
+        defs.append(d)
+    for i, ((c, p), t) in enumerate(zip(pairs, texts)):
+        for name, link in defs[i].items():
+            if link == 'internal' and any(j != i and defs[j].get(name) == 'external' and pairs[j][0]['unit'] != c['unit'] for j in range(len(defs))):
+                t = re.sub(re.escape(name) + r'(?![\w.$])', name + '$static', t)
+        texts[i] = t
+    mods = [Module(p, c['unit'], c['lib'], text=t) for (c, p), t in zip(pairs, texts)]
     prog = Program(mods)
     prog.root = root
     prog.flavour = flavour
